@@ -52,6 +52,7 @@ var (
 	Budget   time.Duration
 	Start    = time.Now()
 	Deadline time.Time
+	FreeRun  int // > 0: race pass (see explore.FreeRuns)
 )
 
 // Init parses the common flags.
@@ -62,7 +63,9 @@ func Init(property, level string) *Result {
 	replay := flag.String("replay", "", "replay file")
 	budget := flag.Duration("budget", 0, "internal time budget (0 = tier default)")
 	seed := flag.Int("seed", 0, "seed (permutes shard order only)")
+	freerun := flag.Int("freerun", 0, "race pass: run every concurrent scenario body this many times free-running (for -race builds)")
 	flag.Parse()
+	FreeRun = *freerun
 	Tier = *tier
 	fmt.Sscanf(*shard, "%d/%d", &Shard, &NShards)
 	if NShards < 1 {
